@@ -215,14 +215,17 @@ def finditer (eq : Char → Char → Bool) (sub t : Text) : List Nat :=
 def nth {α : Type} (ms : List α) (count : Int) : Option α :=
   if count ≥ 1 then ms[(count - 1).toNat]? else none
 
-/-- `find(sub, in_current_line, include_current_position, ignore_case→eq, count)` -/
-def find (eq : Char → Char → Bool) (d : Doc) (sub : Text) (inLine incl : Bool) (count : Int) :
-    Option Int :=
-  let text := if inLine then lineAfter d else d.after
+/-- the body of `find` on the selected text (rest of the line / rest of the document) -/
+def findIn (eq : Char → Char → Bool) (text sub : Text) (incl : Bool) (count : Int) : Option Int :=
   if !incl then
     if text.isEmpty then none
     else (nth (finditer eq sub (text.drop 1)) count).map fun (s : Nat) => (s : Int) + 1
   else (nth (finditer eq sub text) count).map fun (s : Nat) => (s : Int)
+
+/-- `find(sub, in_current_line, include_current_position, ignore_case→eq, count)` -/
+def find (eq : Char → Char → Bool) (d : Doc) (sub : Text) (inLine incl : Bool) (count : Int) :
+    Option Int :=
+  findIn eq (if inLine then lineAfter d else d.after) sub incl count
 
 /-- `find_all(sub, ignore_case→eq)` -/
 def findAll (eq : Char → Char → Bool) (d : Doc) (sub : Text) : List Nat := finditer eq sub d.text
@@ -462,10 +465,10 @@ def cachedStarts (c : Cache) (t : Text) : List Nat × Cache :=
   match c.lineIndexes with
   | some idx => (idx, c)
   | none =>
-    let (ls, c) := cachedLines c t
-    let idx := 0 :: cumul 0 ls
+    let r := cachedLines c t
+    let idx := 0 :: cumul 0 r.1
     let idx := if idx.length > 1 then idx.dropLast else idx
-    (idx, { c with lineIndexes := some idx })
+    (idx, { r.2 with lineIndexes := some idx })
 
 /-- queries that go through the cache, and the garbage collection of an entry -/
 inductive CacheOp
@@ -485,14 +488,16 @@ deriving DecidableEq, Repr
 
 /-- `translate_index_to_position` reading the tables from the cache -/
 def cachedIndexToPos (c : Cache) (t : Text) (i : Nat) : (Nat × Nat) × Cache :=
-  let (idx, c) := cachedStarts c t
-  let pos := bisectRight idx i - 1
-  ((pos, i - idx[pos]?.getD 0), c)
+  let r := cachedStarts c t
+  let pos := bisectRight r.1 i - 1
+  ((pos, i - r.1[pos]?.getD 0), r.2)
 
 /-- `translate_row_col_to_index` reading the tables from the cache -/
 def cachedRowColToIndex (c : Cache) (t : Text) (row col : Int) : Nat × Cache :=
-  let (idx, c) := cachedStarts c t
-  let (ls, c) := cachedLines c t
+  let r1 := cachedStarts c t
+  let r2 := cachedLines r1.2 t
+  let idx := r1.1
+  let ls := r2.1
   let (result, line) : Nat × Text :=
     match index? idx row, index? ls row with
     | some r, some l => (r, l)
@@ -500,13 +505,13 @@ def cachedRowColToIndex (c : Cache) (t : Text) (row col : Int) : Nat × Cache :=
       if row < 0 then (idx.headD 0, ls.headD [])
       else (idx.getLastD 0, ls.getLastD [])
   let result : Int := (result : Int) + max 0 (min col (line.length : Int))
-  ((max 0 (min result (t.length : Int))).toNat, c)
+  ((max 0 (min result (t.length : Int))).toNat, r2.2)
 
 def cacheStep (s : Store) : CacheOp → CacheAns × Store
-  | .lines t => let (r, c) := cachedLines (s.get t) t; (.lines r, s.set t c)
-  | .starts t => let (r, c) := cachedStarts (s.get t) t; (.starts r, s.set t c)
-  | .indexToPos t i => let (r, c) := cachedIndexToPos (s.get t) t i; (.pos r, s.set t c)
-  | .rowColToIndex t row col => let (r, c) := cachedRowColToIndex (s.get t) t row col; (.index r, s.set t c)
+  | .lines t => let r := cachedLines (s.get t) t; (.lines r.1, s.set t r.2)
+  | .starts t => let r := cachedStarts (s.get t) t; (.starts r.1, s.set t r.2)
+  | .indexToPos t i => let r := cachedIndexToPos (s.get t) t i; (.pos r.1, s.set t r.2)
+  | .rowColToIndex t row col => let r := cachedRowColToIndex (s.get t) t row col; (.index r.1, s.set t r.2)
   | .gc t => (.none, s.filter (·.1 != t))
 
 /-- what the same query answers without any cache -/
@@ -520,9 +525,9 @@ def pureAns : CacheOp → CacheAns
 def cacheRun (s : Store) : List CacheOp → List CacheAns × Store
   | [] => ([], s)
   | op :: ops =>
-    let (a, s) := cacheStep s op
-    let (as, s) := cacheRun s ops
-    (a :: as, s)
+    let r := cacheStep s op
+    let rs := cacheRun r.2 ops
+    (r.1 :: rs.1, rs.2)
 
 /-! ### selection (Emacs mode: `vi_mode()` is False; the Vi `+1` is a flag) -/
 
